@@ -4,8 +4,6 @@
 use std::collections::{BTreeMap, HashSet};
 use std::hash::{Hash, Hasher};
 use std::path::{Path, PathBuf};
-use std::sync::atomic::{AtomicBool, AtomicU64, Ordering};
-use std::sync::Mutex;
 use std::time::Instant;
 
 use proptest::strategy::{BoxedStrategy, Strategy};
@@ -266,171 +264,213 @@ pub struct PartCfg {
     pub max_shrink_iters: u32,
 }
 
-struct Shared {
-    stop: AtomicBool,
-    evaluations: AtomicU64,
-    nontrivial: Mutex<HashSet<u64>>,
-    classes: Mutex<BTreeMap<String, u64>>,
-    samples: Mutex<Vec<Value>>,
-    known_hits: Mutex<BTreeMap<String, u64>>,
+#[derive(Serialize, serde::Deserialize, Default)]
+struct WorkerOut {
+    evaluations: u64,
+    nontrivial: Vec<u64>,
+    classes: BTreeMap<String, u64>,
+    samples: Vec<Value>,
+    known_hits: BTreeMap<String, u64>,
+    found: Vec<(String, String, String, Value)>,
+    aborted: Option<String>,
 }
 
-/// Run `cases` generated cases over `threads` independent proptest runners. Returns the
-/// (shrunk) failures found: at most one per thread, de-duplicated by signature.
+/// VERIF_WORKER = "<part>|<k>|<n>|<outfile>|<stopfile>"
+fn worker_env() -> Option<(String, usize, usize, PathBuf, PathBuf)> {
+    let v = std::env::var("VERIF_WORKER").ok()?;
+    let f: Vec<&str> = v.split('|').collect();
+    if f.len() != 5 {
+        return None;
+    }
+    Some((f[0].to_string(), f[1].parse().ok()?, f[2].parse().ok()?, PathBuf::from(f[3]), PathBuf::from(f[4])))
+}
+
+pub fn is_worker() -> bool {
+    std::env::var("VERIF_WORKER").is_ok()
+}
+
+/// Run `cases` generated cases, spread over worker *processes* (one proptest runner each; threads of
+/// one process contend on the address-space lock while opening 28 RocksDB stores per instance, processes
+/// do not). Returns the shrunk failures, de-duplicated by signature.
 pub fn explore<C, MS, F>(ctx: &Ctx, ev: &mut Evidence, cfg: &PartCfg, make_strategy: MS, check: F) -> Vec<Found>
 where
     C: std::fmt::Debug + Clone + Serialize + DeserializeOwned + Simplify + 'static,
     MS: Fn() -> BoxedStrategy<C> + Sync,
     F: Fn(&C) -> CheckResult + Sync,
 {
-    let known: Vec<String> = load_known_findings(&ctx.id).into_iter().map(|k| k.sig).collect();
-    let threads = ctx.threads.max(1).min(cfg.cases.max(1) as usize);
-    let per_thread = (cfg.cases + threads as u64 - 1) / threads as u64;
-    let shared = Shared {
-        stop: AtomicBool::new(false),
-        evaluations: AtomicU64::new(0),
-        nontrivial: Mutex::new(HashSet::new()),
-        classes: Mutex::new(BTreeMap::new()),
-        samples: Mutex::new(vec![]),
-        known_hits: Mutex::new(BTreeMap::new()),
-    };
-    let found: Mutex<Vec<Found>> = Mutex::new(vec![]);
-    std::thread::scope(|s| {
-        for t in 0..threads {
-            let shared = &shared;
-            let found = &found;
-            let known = &known;
-            let make_strategy = &make_strategy;
-            let check = &check;
-            let ctx = ctx.clone();
-            let cfgname = cfg.name;
-            let max_shrink = cfg.max_shrink_iters;
-            std::thread::Builder::new()
-                .stack_size(64 << 20)
-                .spawn_scoped(s, move || {
-                    let config = Config {
-                        cases: per_thread as u32,
-                        failure_persistence: None,
-                        max_shrink_iters: max_shrink,
-                        max_shrink_time: 90_000,
-                        max_global_rejects: 100_000,
-                        verbose: 0,
-                        ..Config::default()
-                    };
-                    let rng = TestRng::from_seed(RngAlgorithm::ChaCha, &seed_bytes(ctx.seed, &ctx.id, cfgname, t));
-                    let mut runner = TestRunner::new_with_rng(config, rng);
-                    let first_sig: Mutex<Option<String>> = Mutex::new(None);
-                    let last_detail: Mutex<String> = Mutex::new(String::new());
-                    let strategy = make_strategy();
-                    let result = runner.run(&strategy, |case| {
-                        let shrinking = first_sig.lock().unwrap().is_some();
-                        if !shrinking && shared.stop.load(Ordering::Relaxed) {
-                            return Ok(());
-                        }
-                        match check(&case) {
-                            Ok(info) => {
-                                if !shrinking {
-                                    let w = info.weight.max(1);
-                                    let n = shared.evaluations.fetch_add(w, Ordering::Relaxed);
-                                    let js = serde_json::to_string(&case).unwrap_or_default();
-                                    if info.nontrivial {
-                                        shared.nontrivial.lock().unwrap().insert(hash_str(&js));
-                                    }
-                                    {
-                                        let mut cl = shared.classes.lock().unwrap();
-                                        for c in &info.classes {
-                                            *cl.entry(c.clone()).or_insert(0) += 1;
-                                        }
-                                    }
-                                    if info.nontrivial && n % 7 == 0 {
-                                        let mut sm = shared.samples.lock().unwrap();
-                                        if sm.len() < 3 && js.len() < 20_000 {
-                                            sm.push(serde_json::from_str(&js).unwrap_or(Value::Null));
-                                        }
-                                    }
-                                }
-                                Ok(())
-                            }
-                            Err(f) => {
-                                if known.contains(&f.sig) {
-                                    if !shrinking {
-                                        *shared.known_hits.lock().unwrap().entry(f.sig.clone()).or_insert(0) += 1;
-                                    }
-                                    return Ok(());
-                                }
-                                let mut fs = first_sig.lock().unwrap();
-                                match &*fs {
-                                    None => {
-                                        *fs = Some(f.sig.clone());
-                                        shared.stop.store(true, Ordering::Relaxed);
-                                    }
-                                    Some(s) if *s != f.sig => return Ok(()), // keep shrinking the same bug
-                                    _ => {}
-                                }
-                                *last_detail.lock().unwrap() = f.detail.clone();
-                                Err(TestCaseError::fail(f.sig.clone()))
-                            }
-                        }
-                    });
-                    if let Err(TestError::Fail(_reason, minimal)) = result {
-                        let want = first_sig.lock().unwrap().clone().unwrap_or_default();
-                        let mut minimal = minimal;
-                        let t0 = Instant::now();
-                        'outer: loop {
-                            for cand in minimal.simpler() {
-                                if t0.elapsed().as_secs() > 90 {
-                                    break 'outer;
-                                }
-                                if let Err(f) = check(&cand) {
-                                    if f.sig == want {
-                                        minimal = cand;
-                                        continue 'outer;
-                                    }
-                                }
-                            }
-                            break;
-                        }
-                        // re-run the minimal case to get its detail
-                        let (sig, detail) = match check(&minimal) {
-                            Err(f) => (f.sig, f.detail),
-                            Ok(_) => (first_sig.lock().unwrap().clone().unwrap_or_default(), last_detail.lock().unwrap().clone()),
-                        };
-                        found.lock().unwrap().push(Found {
-                            part: cfgname.to_string(),
-                            sig,
-                            detail,
-                            case: serde_json::to_value(&minimal).unwrap_or(Value::Null),
-                        });
-                    } else if let Err(TestError::Abort(r)) = result {
-                        eprintln!("[{}] generator aborted: {}", cfgname, r);
-                    }
-                })
-                .expect("spawn");
+    if let Some((part, k, n, outfile, stopfile)) = worker_env() {
+        if part == cfg.name {
+            let per = (cfg.cases + n as u64 - 1) / n as u64;
+            let out = run_worker(ctx, cfg, per, k, &stopfile, &make_strategy, &check);
+            std::fs::write(&outfile, serde_json::to_string(&out).unwrap()).expect("write worker result");
         }
-    });
-    ev.evaluations += shared.evaluations.load(Ordering::Relaxed);
-    for h in shared.nontrivial.lock().unwrap().iter() {
-        ev.nontrivial.insert(*h ^ hash_str(cfg.name));
+        return vec![];
     }
-    for (k, v) in shared.classes.lock().unwrap().iter() {
-        ev.count_class(&format!("{}/{}", cfg.name, k), *v);
+    let workers = ctx.threads.max(1).min(cfg.cases.max(1) as usize);
+    let dir = crate::driver::scratch_root();
+    let _ = std::fs::create_dir_all(&dir);
+    let stopfile = dir.join(format!("stop-{}", cfg.name));
+    let _ = std::fs::remove_file(&stopfile);
+    let exe = std::env::current_exe().expect("current exe");
+    let mut children = vec![];
+    for k in 0..workers {
+        let outfile = dir.join(format!("worker-{}-{}.json", cfg.name, k));
+        let _ = std::fs::remove_file(&outfile);
+        let child = std::process::Command::new(&exe)
+            .arg(&ctx.id)
+            .arg(ctx.tier.name())
+            .env("VERIF_WORKER", format!("{}|{}|{}|{}|{}", cfg.name, k, workers, outfile.display(), stopfile.display()))
+            .env("VERIF_SEED", ctx.seed.to_string())
+            .stdout(std::process::Stdio::null())
+            .spawn()
+            .expect("spawn worker");
+        children.push((child, outfile));
     }
-    for s in shared.samples.lock().unwrap().iter() {
-        if ev.samples.len() < 6 {
-            ev.samples.push(json!({"part": cfg.name, "case": s}));
+    let mut merged: Vec<WorkerOut> = vec![];
+    for (mut child, outfile) in children {
+        let status = child.wait();
+        match std::fs::read_to_string(&outfile).ok().and_then(|s| serde_json::from_str::<WorkerOut>(&s).ok()) {
+            Some(o) => merged.push(o),
+            None => {
+                eprintln!("[{}] worker produced no result (status {:?})", cfg.name, status);
+                ev.extra.insert("worker_failures".into(), json!(ev.extra.get("worker_failures").and_then(|v| v.as_u64()).unwrap_or(0) + 1));
+            }
         }
+        let _ = std::fs::remove_file(&outfile);
     }
-    for (k, v) in shared.known_hits.lock().unwrap().iter() {
-        *ev.known_hits.entry(k.clone()).or_insert(0) += v;
+    let _ = std::fs::remove_file(&stopfile);
+    let mut out: Vec<Found> = vec![];
+    for o in merged {
+        ev.evaluations += o.evaluations;
+        for h in o.nontrivial {
+            ev.nontrivial.insert(h ^ hash_str(cfg.name));
+        }
+        for (k, v) in o.classes {
+            ev.count_class(&format!("{}/{}", cfg.name, k), v);
+        }
+        for s in o.samples {
+            if ev.samples.iter().filter(|x| x.get("part").and_then(|p| p.as_str()) == Some(cfg.name)).count() < 3 {
+                ev.samples.push(json!({"part": cfg.name, "case": s}));
+            }
+        }
+        for (k, v) in o.known_hits {
+            *ev.known_hits.entry(k).or_insert(0) += v;
+        }
+        if let Some(a) = o.aborted {
+            eprintln!("[{}] generator aborted: {}", cfg.name, a);
+        }
+        for (part, sig, detail, case) in o.found {
+            if !out.iter().any(|f| f.sig == sig) {
+                out.push(Found { part, sig, detail, case });
+            }
+        }
     }
     ev.rules.push(format!("[{}] {}", cfg.name, cfg.rule));
-    let mut out: Vec<Found> = vec![];
-    for f in found.into_inner().unwrap() {
-        if !out.iter().any(|o| o.sig == f.sig) {
-            out.push(f);
-        }
-    }
     out
+}
+
+fn run_worker<C, MS, F>(ctx: &Ctx, cfg: &PartCfg, cases: u64, k: usize, stopfile: &Path, make_strategy: &MS, check: &F) -> WorkerOut
+where
+    C: std::fmt::Debug + Clone + Serialize + DeserializeOwned + Simplify + 'static,
+    MS: Fn() -> BoxedStrategy<C> + Sync,
+    F: Fn(&C) -> CheckResult + Sync,
+{
+    use std::cell::RefCell;
+    let known: Vec<String> = load_known_findings(&ctx.id).into_iter().map(|k| k.sig).collect();
+    let out = RefCell::new(WorkerOut::default());
+    let nontrivial: RefCell<HashSet<u64>> = RefCell::new(HashSet::new());
+    let first_sig: RefCell<Option<String>> = RefCell::new(None);
+    let last_detail: RefCell<String> = RefCell::new(String::new());
+    let config = Config {
+        cases: cases as u32,
+        failure_persistence: None,
+        max_shrink_iters: cfg.max_shrink_iters,
+        max_shrink_time: 90_000,
+        max_global_rejects: 100_000,
+        verbose: 0,
+        ..Config::default()
+    };
+    let rng = TestRng::from_seed(RngAlgorithm::ChaCha, &seed_bytes(ctx.seed, &ctx.id, cfg.name, k));
+    let mut runner = TestRunner::new_with_rng(config, rng);
+    let strategy = make_strategy();
+    let result = runner.run(&strategy, |case| {
+        let shrinking = first_sig.borrow().is_some();
+        if !shrinking && stopfile.exists() {
+            return Ok(());
+        }
+        match check(&case) {
+            Ok(info) => {
+                if !shrinking {
+                    let mut o = out.borrow_mut();
+                    let n = o.evaluations;
+                    o.evaluations += info.weight.max(1);
+                    let js = serde_json::to_string(&case).unwrap_or_default();
+                    if info.nontrivial {
+                        nontrivial.borrow_mut().insert(hash_str(&js));
+                    }
+                    for c in &info.classes {
+                        *o.classes.entry(c.clone()).or_insert(0) += 1;
+                    }
+                    if info.nontrivial && n % 5 == 0 && o.samples.is_empty() && js.len() < 20_000 {
+                        o.samples.push(serde_json::from_str(&js).unwrap_or(Value::Null));
+                    }
+                }
+                Ok(())
+            }
+            Err(f) => {
+                if known.contains(&f.sig) {
+                    if !shrinking {
+                        *out.borrow_mut().known_hits.entry(f.sig.clone()).or_insert(0) += 1;
+                    }
+                    return Ok(());
+                }
+                let mut fs = first_sig.borrow_mut();
+                match &*fs {
+                    None => {
+                        *fs = Some(f.sig.clone());
+                        let _ = std::fs::write(stopfile, b"stop");
+                    }
+                    Some(s) if *s != f.sig => return Ok(()), // keep shrinking the same bug
+                    _ => {}
+                }
+                *last_detail.borrow_mut() = f.detail.clone();
+                Err(TestCaseError::fail(f.sig.clone()))
+            }
+        }
+    });
+    match result {
+        Err(TestError::Fail(_reason, minimal)) => {
+            let want = first_sig.borrow().clone().unwrap_or_default();
+            let mut minimal = minimal;
+            let t0 = Instant::now();
+            'outer: loop {
+                for cand in minimal.simpler() {
+                    if t0.elapsed().as_secs() > 90 {
+                        break 'outer;
+                    }
+                    if let Err(f) = check(&cand) {
+                        if f.sig == want {
+                            minimal = cand;
+                            continue 'outer;
+                        }
+                    }
+                }
+                break;
+            }
+            let (sig, detail) = match check(&minimal) {
+                Err(f) => (f.sig, f.detail),
+                Ok(_) => (want, last_detail.borrow().clone()),
+            };
+            out.borrow_mut().found.push((cfg.name.to_string(), sig, detail, serde_json::to_value(&minimal).unwrap_or(Value::Null)));
+        }
+        Err(TestError::Abort(r)) => {
+            out.borrow_mut().aborted = Some(r.to_string());
+        }
+        Ok(()) => {}
+    }
+    let mut o = out.into_inner();
+    o.nontrivial = nontrivial.into_inner().into_iter().collect();
+    o
 }
 
 pub fn replays_dir() -> PathBuf {
